@@ -553,6 +553,21 @@ func (tb *Table) AppI(op string, i, j int, args ...*Term) *Term {
 		if a == b {
 			return tb.BoolConst(op == "bvule" || op == "bvsle")
 		}
+		// value-range shortcut from known leading zero bits (a < 2^k <= b)
+		if (op == "bvult" || op == "bvule") && b.IsConst() && a.S.W <= 64 {
+			if ub, ok := tb.upperBound(a); ok {
+				if (op == "bvult" && ub < b.Val) || (op == "bvule" && ub <= b.Val) {
+					return tb.True()
+				}
+			}
+		}
+		if (op == "bvult" || op == "bvule") && a.IsConst() && b.S.W <= 64 {
+			if ub, ok := tb.upperBound(b); ok {
+				if (op == "bvult" && a.Val >= ub) || (op == "bvule" && a.Val > ub) {
+					return tb.False()
+				}
+			}
+		}
 		return tb.mk(op, BoolSort, 0, 0, a, b)
 	// ---- popcount-like helpers are built by the interpreter from primitives
 	// ---- floating point
